@@ -1,18 +1,23 @@
-(** C16 — run order of the extensions at request time: a small pipeline model of
+(** C16 — run order of the extensions at request time: a pipeline model of
     [Extensions::resolve_prime / resolve_prepare / resolve_present / resolve_package /
-    resolve_post] (src/extensions.rs l.852-1012) in the order in which [handle_cache],
-    [handle_request], [get_response] and [SendKind::send] (src/lib.rs) call them, for a host
-    without response cache and with the file system disabled.
+    resolve_post] (src/extensions.rs) in the order in which [handle_cache], [get_response],
+    [handle_request] and [SendKind::send] (src/lib.rs) call them — including the response
+    cache ([handle_cache]'s hit arm skips Prepare and Present; Package and Post run in
+    [SendKind::send], i.e. for every response, cached or not), the request's method (HEAD,
+    other methods), [utils::sanitize_request] (an unsafe path or an inverted range skips Prepare,
+    not Present / Package / Post), the [range] header applied in [send] before Package, and
+    files served from the public directory (whose first line is read like a Prepare body).
     Every extension is a marker: it logs an [event]; the model returns the event trace.
     The [resolve_*] functions take the extensions' behaviour as Coq functions (theorems hold
     for arbitrary behaviours); [serve] instantiates them from a fixture menu ([payload]) that
     exists a second time in the Rust harness (harness/src/c16pipe.rs).
-    Definitions only; proofs live in Proofs/RunOrderProofs.v. *)
+    Definitions only; proofs live in Proofs/RunOrderProofs.v; the declarative specification of
+    the run order is Model/RunSpec.v. *)
 From KV Require Export Bytes Registry PresentLine.
 Open Scope N_scope.
 
 Inductive event : Type :=
-| EPrime (prio : Z) (seen : bytes)          (* Prime extension with priority [prio] saw request path [seen] *)
+| EPrime (prio : Z) (seen : bytes)          (* Prime extension with priority [prio] saw the request URI [seen] (path and query) *)
 | EPrepareSingle (key : bytes) (seen : bytes)
 | EPrepareFn (prio : Z) (seen : bytes)
 | EPresentFn (prio : Z)
@@ -22,6 +27,20 @@ Inductive event : Type :=
 | EPost (prio : Z).
 
 Definition OVERRIDE_PREFIX : bytes := Eval vm_compute in B "/./".
+
+(** [Uri::path()] / [Uri::query()] of a request target [path?query] (no fragment; an empty
+    query is no query for the cache key, [PathQuery::from]). *)
+Definition QMARK : N := 63.
+Fixpoint uri_path (u : bytes) : bytes :=
+  match u with
+  | [] => []
+  | c :: r => if c =? QMARK then [] else c :: uri_path r
+  end.
+Fixpoint uri_query (u : bytes) : option bytes :=
+  match u with
+  | [] => None
+  | c :: r => if c =? QMARK then (match r with [] => None | _ => Some r end) else uri_query r
+  end.
 
 (** ---- resolve_prime ----
       let mut uri = None;
@@ -51,22 +70,22 @@ Fixpoint resolve_prime (primes : list (Z * prime_ext)) (st : bytes * option byte
       } else {
           for (_, function, extension) in &self.prepare_fn {
               if function(request, host) { return Some(extension.call(..).await); } }
-          None }                                                                            *)
-Definition handler := bytes -> bytes.          (* request path -> response body *)
+          None }
+    The response type [R] is arbitrary. *)
 Fixpoint assoc {X} (k : bytes) (m : list (bytes * X)) : option X :=
   match m with
   | [] => None
   | (k', v) :: r => if beq k' k then Some v else assoc k r
   end.
-Fixpoint first_match (fns : list (Z * ((bytes -> bool) * handler))) (path : bytes) : option (Z * handler) :=
+Fixpoint first_match {R} (fns : list (Z * ((bytes -> bool) * (bytes -> R)))) (uri : bytes) : option (Z * (bytes -> R)) :=
   match fns with
   | [] => None
-  | (i, (pred, h)) :: r => if pred path then Some (i, h) else first_match r path
+  | (i, (pred, h)) :: r => if pred uri then Some (i, h) else first_match r uri
   end.
 Definition prepare_key (st : bytes * option bytes) : bytes :=
-  match snd st with Some u => u | None => fst st end.
-Definition resolve_prepare (single : list (bytes * handler)) (fns : list (Z * ((bytes -> bool) * handler)))
-           (st : bytes * option bytes) : option bytes * list event :=
+  uri_path (match snd st with Some u => u | None => fst st end).
+Definition resolve_prepare {R} (single : list (bytes * (bytes -> R))) (fns : list (Z * ((bytes -> bool) * (bytes -> R))))
+           (st : bytes * option bytes) : option R * list event :=
   match assoc (prepare_key st) single with
   | Some h => (Some (h (fst st)), [EPrepareSingle (prepare_key st) (fst st)])
   | None =>
@@ -82,8 +101,8 @@ Definition resolve_prepare (single : list (bytes * handler)) (fns : list (Z * ((
     path's file extension, then the extensions named on the [!> ] line, in line order, that
     are registered in present_internal, each with its arguments.
     [Path::extension] on the domain of the fixture paths (segments of [a-z0-9.], no empty,
-    [.] or [..] last segment): text after the last dot of the last segment unless that dot
-    is the segment's first byte. *)
+    [.] or [..] last segment, no percent-encoding): text after the last dot of the last segment
+    unless that dot is the segment's first byte. *)
 Definition SLASH : N := 47.
 Definition DOT : N := 46.
 Fixpoint last_segment (cur : bytes) (s : bytes) : bytes :=
@@ -103,23 +122,24 @@ Definition path_extension (path : bytes) : option bytes :=
   end.
 Definition bmem (k : bytes) (l : list bytes) : bool := existsb (fun x => beq x k) l.
 
-Definition present_events (pfns : list (Z * (bytes -> bool))) (pfile pint : list bytes) (path : bytes)
+(** [uri]: the request URI (what the predicates see); the file extension is taken from its path *)
+Definition present_events (pfns : list (Z * (bytes -> bool))) (pfile pint : list bytes) (uri : bytes)
            (entries : list (bytes * list bytes)) : list event :=
-  map (fun x => EPresentFn (fst x)) (filter (fun x => snd x path) pfns)
-  ++ (match path_extension path with
+  map (fun x => EPresentFn (fst x)) (filter (fun x => snd x uri) pfns)
+  ++ (match path_extension (uri_path uri) with
       | Some e => if bmem e pfile then [EPresentFile e] else []
       | None => []
       end)
   ++ map (fun e => EPresentInternal (fst e) (snd e)) (filter (fun e => bmem (fst e) pint) entries).
 
 Definition resolve_present (parse : bytes -> outcome (option parsed))
-           (pfns : list (Z * (bytes -> bool))) (pfile pint : list bytes) (path body : bytes)
+           (pfns : list (Z * (bytes -> bool))) (pfile pint : list bytes) (uri body : bytes)
   : outcome (bytes * list event) :=
   match parse body with
   | Panic => Panic
   | Err e => Err e
-  | Ok None => Ok (body, present_events pfns pfile pint path [])
-  | Ok (Some p) => Ok (p_body p, present_events pfns pfile pint path (p_entries p))
+  | Ok None => Ok (body, present_events pfns pfile pint uri [])
+  | Ok (Some p) => Ok (p_body p, present_events pfns pfile pint uri (p_entries p))
   end.
 
 (** ---- resolve_package / resolve_post ----
@@ -135,6 +155,12 @@ Definition resolve_post {X} (l : list (Z * X)) : list event :=
      end.
 
 (** ---- one request ---- *)
+(** what a Prepare extension answers: the body (status 200) and the server cache preference
+    (0 [ServerCachePreference::None], 1 [Full], 2 [QueryMatters]); 3: the answer carries a [future]
+    ([FatResponse::with_future], a streamed body of unknown length) that writes [STREAM_TAIL] after the body *)
+Record presp : Type := { pr_body : bytes; pr_pref : N }.
+Definition handler := bytes -> presp.          (* request URI -> response *)
+
 Record behaviours : Type := {
   b_prime : list (Z * prime_ext);
   b_single : list (bytes * handler);
@@ -145,138 +171,327 @@ Record behaviours : Type := {
   b_package : list (Z * unit);
   b_post : list (Z * unit) }.
 
-(** result: [Ok (status, body)] or [Panic] (connection closed without an answer), and the trace *)
-Definition serve (parse : bytes -> outcome (option parsed)) (b : behaviours) (path : bytes)
-  : outcome (N * bytes) * list event :=
-  let '(st, tr1) := resolve_prime (b_prime b) (path, None) in
-  let '(resp, tr2) := resolve_prepare (b_single b) (b_prepare_fn b) st in
-  let '(status, body) := match resp with Some body => (200, body) | None => (404, []) end in
-  match resolve_present parse (b_present_fn b) (b_present_file b) (b_present_internal b) (fst st) body with
-  | Panic => (Panic, tr1 ++ tr2)
-  | Err e => (Err e, tr1 ++ tr2)
-  | Ok (body', tr3) => (Ok (status, body'), tr1 ++ tr2 ++ tr3 ++ resolve_package (b_package b) ++ resolve_post (b_post b))
+(** the host: its extensions, whether it has a response cache, and the files of its public
+    directory ([None]: [Options::disable_fs]) keyed by request path *)
+Record hostcfg : Type := { h_b : behaviours; h_cache : bool; h_files : option (list (bytes * bytes)) }.
+
+(** the request: method (0 GET, 1 HEAD, anything else: another method), target, [range: bytes=s-e] *)
+Record creq : Type := { q_method : N; q_uri : bytes; q_range : option (N * N) }.
+Definition is_get_head (m : N) : bool := (m =? 0) || (m =? 1).
+
+(** [utils::sanitize_request] (paths without percent-encoding):
+      path_ok = !(path.contains("./") || !path.starts_with('/')) && Path::new(&path[1..]).is_relative()
+      range (s, e): s > e => Err(RangeNotSatisfiable), else Some((s, e + 1))                 *)
+Inductive san : Type := SanOk (range : option (N * N)) | SanUnsafe | SanRange.
+Definition DOTSLASH : bytes := Eval vm_compute in B "./".
+Definition path_ok (p : bytes) : bool :=
+  negb (contains_sub DOTSLASH p) && starts_with [SLASH] p && negb (starts_with [SLASH; SLASH] p).
+Definition sanitize (r : creq) : san :=
+  if negb (path_ok (uri_path (q_uri r))) then SanUnsafe else
+  match q_range r with
+  | Some (s, e) => if e <? s then SanRange else SanOk (Some (s, e + 1))
+  | None => SanOk None
+  end.
+
+(** the response cache: [UriKey::Path(path)] and [UriKey::PathQuery(path, query)] are different
+    keys; a look-up tries PathQuery, then Path ([handle_cache]); what is stored is the response
+    after Present (status, body). *)
+Inductive ckey : Type := KPath (p : bytes) | KPQ (p : bytes) (q : option bytes).
+Definition ckey_eqb (a c : ckey) : bool :=
+  match a, c with
+  | KPath p, KPath p' => beq p p'
+  | KPQ p q, KPQ p' q' => beq p p' && match q, q' with Some x, Some y => beq x y | None, None => true | _, _ => false end
+  | _, _ => false
+  end.
+Definition centry := (N * bytes)%type.
+Definition cache := list (ckey * centry).
+Fixpoint cget (k : ckey) (c : cache) : option centry :=
+  match c with
+  | [] => None
+  | (k', v) :: r => if ckey_eqb k' k then Some v else cget k r
+  end.
+Definition cput (k : ckey) (v : centry) (c : cache) : cache :=
+  (k, v) :: filter (fun e => negb (ckey_eqb (fst e) k)) c.
+(** [host::default_status_code_cache_filter] *)
+Definition cacheable_status (s : N) : bool :=
+  negb (((400 <=? s) && (s <=? 403)) || ((405 <=? s) && (s <=? 409)) || ((411 <=? s) && (s <=? 499))
+        || ((100 <=? s) && (s <=? 199)) || (s =? 304)).
+
+(** [handle_request]: Prepare, else the file (GET and HEAD only), else the error page *)
+Definition fallback_response (h : hostcfg) (method : N) (uri : bytes) : N * bytes * N :=
+  match h_files h with
+  | None => (404, [], 1)
+  | Some files =>
+      if is_get_head method then
+        match assoc (uri_path uri) files with
+        | Some content => (200, content, 1)
+        | None => (404, [], 1)
+        end
+      else (405, [], 1)
+  end.
+Definition response_of (h : hostcfg) (method : N) (uri : bytes) (resp : option presp) : N * bytes * N :=
+  match resp with
+  | Some r => (200, pr_body r, pr_pref r)
+  | None => fallback_response h method uri
+  end.
+Definition handle_request (h : hostcfg) (method : N) (st : bytes * option bytes) : (N * bytes * N) * list event :=
+  let '(resp, tr) := resolve_prepare (b_single (h_b h)) (b_prepare_fn (h_b h)) st in
+  (response_of h method (fst st) resp, tr).
+
+(** [SendKind::send]: the range of the request is applied (an unsatisfiable one replaces the
+    response by the 416 page), then every Package extension, the head, the body unless HEAD,
+    then every Post extension.  Error pages are modelled with an empty body. *)
+Definition apply_range (s : san) (sb : N * bytes) : N * bytes :=
+  let '(status, body) := sb in
+  match s with
+  | SanOk (Some (rs, re)) =>
+      if status =? 304 then (status, body) else
+      let len := N.of_nat (length body) in
+      if len <=? rs then (416, [])
+      else ((if status =? 200 then 206 else status), slice (N.to_nat rs) (N.to_nat (N.min re len)) body)
+  | _ => (status, body)
+  end.
+(** what the client reads: no body after HEAD *)
+Definition client_view (method : N) (sb : N * bytes) : N * bytes := (fst sb, if method =? 1 then [] else snd sb).
+(** a response with a [future]: no range is applied ([is_stream]), the future writes after the body — not
+    for HEAD —, then the Post extensions run; such a response is never cached *)
+Definition STREAM_TAIL : bytes := Eval vm_compute in B "+streamed".
+Definition is_stream (pref : N) : bool := pref =? 3.
+Definition respond (method : N) (s : san) (pref : N) (sb : N * bytes) : N * bytes :=
+  if is_stream pref then client_view method (fst sb, snd sb ++ STREAM_TAIL)
+  else client_view method (apply_range s sb).
+Definition send (b : behaviours) (method : N) (s : san) (pref : N) (sb : N * bytes) : (N * bytes) * list event :=
+  (respond method s pref sb, resolve_package (b_package b) ++ resolve_post (b_post b)).
+
+(** the cache look-up and the decision to store of [handle_cache] / [maybe_cache]; [st]: request URI
+    and override URI after the Prime extensions *)
+Definition key_uri (st : bytes * option bytes) : bytes := match snd st with Some u => u | None => fst st end.
+Definition cache_hit (h : hostcfg) (c : cache) (s : san) (method : N) (kuri : bytes) : option centry :=
+  let cached :=
+    if h_cache h then
+      match cget (KPQ (uri_path kuri) (uri_query kuri)) c with
+      | Some v => Some v
+      | None => cget (KPath (uri_path kuri)) c
+      end
+    else None in
+  match cached, s with
+  | Some v, SanOk _ => if is_get_head method then Some v else None
+  | _, _ => None
+  end.
+Definition cache_store (h : hostcfg) (c : cache) (method : N) (kuri : bytes) (pref status : N) (body : bytes) : cache :=
+  if h_cache h && negb (pref =? 0) && negb (is_stream pref) && is_get_head method && cacheable_status status
+  then cput (if pref =? 2 then KPQ (uri_path kuri) (uri_query kuri) else KPath (uri_path kuri)) (status, body) c
+  else c.
+
+(** [handle_cache] + [SendKind::send]. Result: [Ok (status, body)] as the client reads it or
+    [Panic] (connection closed without an answer), the trace, and the cache afterwards. *)
+Definition serve (parse : bytes -> outcome (option parsed)) (h : hostcfg) (c : cache) (r : creq)
+  : (outcome (N * bytes) * list event) * cache :=
+  let b := h_b h in
+  let s := sanitize r in
+  let '(st, tr1) := resolve_prime (b_prime b) (q_uri r, None) in
+  match cache_hit h c s (q_method r) (key_uri st) with
+  | Some sb =>
+      let '(reply, tr4) := send b (q_method r) s 1 sb in
+      ((Ok reply, tr1 ++ tr4), c)
+  | None =>
+      let '((status, body, pref), tr2) :=
+        match s with
+        | SanOk _ => handle_request h (q_method r) st
+        | SanUnsafe => ((400, [], 1), [])
+        | SanRange => ((416, [], 1), [])
+        end in
+      match resolve_present parse (b_present_fn b) (b_present_file b) (b_present_internal b) (fst st) body with
+      | Panic => ((Panic, tr1 ++ tr2), c)
+      | Err e => ((Err e, tr1 ++ tr2), c)
+      | Ok (body', tr3) =>
+          let '(reply, tr4) := send b (q_method r) s pref (status, body') in
+          ((Ok reply, tr1 ++ tr2 ++ tr3 ++ tr4), cache_store h c (q_method r) (key_uri st) pref status body')
+      end
+  end.
+
+(** a history of requests on one host, the cache empty at the start *)
+Fixpoint serve_all parse (h : hostcfg) (c : cache) (rs : list creq) : list (outcome (N * bytes) * list event) :=
+  match rs with
+  | [] => []
+  | r :: rest => let '(reply, c') := serve parse h c r in reply :: serve_all parse h c' rest
   end.
 
 (** ---- the fixture menu and the registry edits that build a host's [Extensions] ---- *)
 Inductive payload : Type :=
-| PPrime (from to : bytes)            (* rewrites the path [from] into [to]; [to] may start with /./ *)
-| PPrepareFn (prefix body : bytes)    (* predicate: path starts with [prefix]; handler answers [body] *)
+| PPrime (from to : bytes)            (* rewrites a URI whose path is [from] into [to]; [to] may start with /./ *)
+| PPrepareFn (prefix body : bytes) (pref : N)   (* predicate: path starts with [prefix]; handler answers [body] with cache preference [pref] *)
 | PPresentFn (prefix : bytes)
 | PMark.
 
 Definition prime_of (p : payload) : prime_ext :=
   match p with
-  | PPrime from to => fun path => if beq path from then Some to else None
+  | PPrime from to => fun uri => if beq (uri_path uri) from then Some to else None
   | _ => fun _ => None
   end.
 Definition prepare_of (p : payload) : (bytes -> bool) * handler :=
   match p with
-  | PPrepareFn prefix body => (starts_with prefix, fun _ => body)
-  | _ => (fun _ => false, fun _ => [])
+  | PPrepareFn prefix body pref => (fun uri => starts_with prefix (uri_path uri), fun _ => {| pr_body := body; pr_pref := pref |})
+  | _ => (fun _ => false, fun _ => {| pr_body := []; pr_pref := 0 |})
   end.
 Definition present_of (p : payload) : bytes -> bool :=
   match p with
-  | PPresentFn prefix => starts_with prefix
+  | PPresentFn prefix => fun uri => starts_with prefix (uri_path uri)
   | _ => fun _ => false
   end.
 
+(** every registered closure carries a mark (the index of the edit that registered it): the
+    marker extensions of the harness log it, so that "an equal priority / an equal key replaces"
+    is observed on the closure that runs, not only on the listing *)
 Record pconfig : Type := {
-  pc_lists : list (list (Z * payload));      (* prime, prepare_fn, present_fn, package, post *)
-  pc_single : list (bytes * bytes);          (* prepare_single: path -> body *)
-  pc_internal : list bytes;
-  pc_file : list bytes }.
+  pc_lists : list (list (Z * (N * payload)));      (* prime, prepare_fn, present_fn, package, post *)
+  pc_single : list (bytes * (N * presp));          (* prepare_single: path -> mark, response *)
+  pc_internal : list (bytes * N);                  (* present_internal: name -> mark *)
+  pc_file : list (bytes * N) }.                    (* present_file: file extension -> mark *)
 Definition pconfig_empty : pconfig :=
   {| pc_lists := [[]; []; []; []; []]; pc_single := []; pc_internal := []; pc_file := [] |}.
 
 Definition mapsnd {X Y K} (f : X -> Y) (l : list (K * X)) : list (K * Y) := map (fun e => (fst e, f (snd e))) l.
 Definition behaviours_of (c : pconfig) : behaviours :=
-  {| b_prime := mapsnd prime_of (nth 0 (pc_lists c) []);
-     b_single := mapsnd (fun body => (fun _ : bytes => body)) (pc_single c);
-     b_prepare_fn := mapsnd prepare_of (nth 1 (pc_lists c) []);
-     b_present_fn := mapsnd present_of (nth 2 (pc_lists c) []);
-     b_present_file := pc_file c;
-     b_present_internal := pc_internal c;
+  {| b_prime := mapsnd (fun mp => prime_of (snd mp)) (nth 0 (pc_lists c) []);
+     b_single := mapsnd (fun mr => (fun _ : bytes => snd mr)) (pc_single c);
+     b_prepare_fn := mapsnd (fun mp => prepare_of (snd mp)) (nth 1 (pc_lists c) []);
+     b_present_fn := mapsnd (fun mp => present_of (snd mp)) (nth 2 (pc_lists c) []);
+     b_present_file := map fst (pc_file c);
+     b_present_internal := map fst (pc_internal c);
      b_package := mapsnd (fun _ => tt) (nth 3 (pc_lists c) []);
      b_post := mapsnd (fun _ => tt) (nth 4 (pc_lists c) []) |}.
 
+(** [HashMap::insert] / [HashMap::remove] on an association list *)
+Definition map_remove {X} (k : bytes) (m : list (bytes * X)) : list (bytes * X) :=
+  filter (fun kv => negb (beq (fst kv) k)) m.
+Definition map_insert {X} (k : bytes) (v : X) (m : list (bytes * X)) : list (bytes * X) := (k, v) :: map_remove k m.
+
 (** one edit: kind 0-4 sorted vectors (code 0 add, 1 add no_override, 2 remove), 5 prepare_single,
     6 present_internal, 7 present_file (code 0 insert, 2 remove).  A panicking edit leaves the value as it was. *)
-Record pedit : Type := { pe_kind : nat; pe_code : N; pe_prio : Z; pe_key : bytes; pe_payload : payload; pe_body : bytes }.
+Record pedit : Type := { pe_kind : nat; pe_code : N; pe_prio : Z; pe_key : bytes; pe_payload : payload; pe_body : bytes; pe_pref : N }.
 
-Definition pconfig_step (stepf : list (Z * payload) -> op payload -> outcome (list (Z * payload)))
-           (c : pconfig) (e : pedit) : pconfig :=
+Definition pconfig_step (stepf : list (Z * (N * payload)) -> op (N * payload) -> outcome (list (Z * (N * payload))))
+           (c : pconfig) (me : N * pedit) : pconfig :=
+  let '(mark, e) := me in
   if Nat.ltb (pe_kind e) 5 then
     let l := nth (pe_kind e) (pc_lists c) [] in
-    let o := if N.eqb (pe_code e) 2 then Registry.Remove (pe_prio e) else Registry.Add (pe_prio e) (N.eqb (pe_code e) 1) (pe_payload e) in
+    let o := if N.eqb (pe_code e) 2 then Registry.Remove (pe_prio e)
+             else Registry.Add (pe_prio e) (N.eqb (pe_code e) 1) (mark, pe_payload e) in
     match stepf l o with
     | Ok l' => {| pc_lists := upd (pe_kind e) (fun _ => l') (pc_lists c); pc_single := pc_single c;
                   pc_internal := pc_internal c; pc_file := pc_file c |}
     | _ => c
     end
   else if Nat.eqb (pe_kind e) 5 then
-    let m := filter (fun kv => negb (beq (fst kv) (pe_key e))) (pc_single c) in
-    {| pc_lists := pc_lists c; pc_single := if N.eqb (pe_code e) 2 then m else (pe_key e, pe_body e) :: m;
+    {| pc_lists := pc_lists c;
+       pc_single := if N.eqb (pe_code e) 2 then map_remove (pe_key e) (pc_single c)
+                    else map_insert (pe_key e) (mark, {| pr_body := pe_body e; pr_pref := pe_pref e |}) (pc_single c);
        pc_internal := pc_internal c; pc_file := pc_file c |}
   else if Nat.eqb (pe_kind e) 6 then
     {| pc_lists := pc_lists c; pc_single := pc_single c;
-       pc_internal := if N.eqb (pe_code e) 2 then key_remove (pe_key e) (pc_internal c) else key_insert (pe_key e) (pc_internal c);
+       pc_internal := if N.eqb (pe_code e) 2 then map_remove (pe_key e) (pc_internal c) else map_insert (pe_key e) mark (pc_internal c);
        pc_file := pc_file c |}
   else
     {| pc_lists := pc_lists c; pc_single := pc_single c; pc_internal := pc_internal c;
-       pc_file := if N.eqb (pe_code e) 2 then key_remove (pe_key e) (pc_file c) else key_insert (pe_key e) (pc_file c) |}.
+       pc_file := if N.eqb (pe_code e) 2 then map_remove (pe_key e) (pc_file c) else map_insert (pe_key e) mark (pc_file c) |}.
 
-Definition pconfig_build stepf (es : list pedit) : pconfig := fold_left (pconfig_step stepf) es pconfig_empty.
+Fixpoint number {X} (i : N) (l : list X) : list (N * X) :=
+  match l with
+  | [] => []
+  | x :: r => (i, x) :: number (i + 1) r
+  end.
+Definition pconfig_build stepf (es : list pedit) : pconfig := fold_left (pconfig_step stepf) (number 0 es) pconfig_empty.
 
-(** scenario: edits, then requests; implementation = the registry macros and the byte-level parser,
-    specification = the reference map and the token-level reading of the line *)
-Definition run_scenario stepf parse (es : list pedit) (paths : list bytes) : list (outcome (N * bytes) * list event) :=
-  map (serve parse (behaviours_of (pconfig_build stepf es))) paths.
+(** scenario: edits, then a history of requests on the host (cache on/off, files); implementation = the
+    registry macros and the byte-level parser, specification = the reference map and the token-level
+    reading of the line *)
+Record hostopts : Type := { o_cache : bool; o_files : option (list (bytes * bytes)) }.
+Definition host_of (c : pconfig) (o : hostopts) : hostcfg :=
+  {| h_b := behaviours_of c; h_cache := o_cache o; h_files := o_files o |}.
+Definition run_scenario stepf parse (es : list pedit) (o : hostopts) (rs : list creq)
+  : pconfig * list (outcome (N * bytes) * list event) :=
+  let c := pconfig_build stepf es in
+  (c, serve_all parse (host_of c o) [] rs).
 Definition scenario_model := run_scenario model_step present_parse.
 Definition scenario_spec := run_scenario ref_step (fun d => Ok (spec_present d)).
 
 (** ---- xval interface ---- *)
-Definition x_event (e : event) : xval :=
+(** the mark of the closure registered at a priority / under a key (what the harness' marker logs) *)
+Definition NO_MARK : N := 4294967295.
+Definition mark_at (c : pconfig) (kind : nat) (i : Z) : N :=
+  match ref_get (nth kind (pc_lists c) []) i with Some mp => fst mp | None => NO_MARK end.
+Definition mark_of {X} (m : list (bytes * X)) (f : X -> N) (k : bytes) : N :=
+  match assoc k m with Some v => f v | None => NO_MARK end.
+Definition x_event (c : pconfig) (e : event) : xval :=
   match e with
-  | EPrime i s => XL [XN 0; x_Z i; XB s]
-  | EPrepareSingle k s => XL [XN 1; XB k; XB s]
-  | EPrepareFn i s => XL [XN 2; x_Z i; XB s]
-  | EPresentFn i => XL [XN 3; x_Z i]
-  | EPresentFile e => XL [XN 4; XB e]
-  | EPresentInternal n a => XL [XN 5; XB n; x_list XB a]
-  | EPackage i => XL [XN 6; x_Z i]
-  | EPost i => XL [XN 7; x_Z i]
+  | EPrime i s => XL [XN 0; x_Z i; XN (mark_at c 0 i); XB s]
+  | EPrepareSingle k s => XL [XN 1; XB k; XN (mark_of (pc_single c) fst k); XB s]
+  | EPrepareFn i s => XL [XN 2; x_Z i; XN (mark_at c 1 i); XB s]
+  | EPresentFn i => XL [XN 3; x_Z i; XN (mark_at c 2 i)]
+  | EPresentFile e => XL [XN 4; XB e; XN (mark_of (pc_file c) (fun m => m) e)]
+  (* the arguments as [iter()] yields them and as [iter().rev()] does *)
+  | EPresentInternal n a => XL [XN 5; XB n; XN (mark_of (pc_internal c) (fun m => m) n); x_list XB a; x_list XB (rev a)]
+  | EPackage i => XL [XN 6; x_Z i; XN (mark_at c 3 i)]
+  | EPost i => XL [XN 7; x_Z i; XN (mark_at c 4 i)]
   end.
-Definition x_reply (r : outcome (N * bytes) * list event) : xval :=
-  XL [x_outcome (fun sb => XL [XN (fst sb); XB (snd sb)]) (fst r); x_list x_event (snd r)].
+Definition x_reply (c : pconfig) (r : outcome (N * bytes) * list event) : xval :=
+  XL [x_outcome (fun sb => XL [XN (fst sb); XB (snd sb)]) (fst r); x_list (x_event c) (snd r)].
 
-(** edit: (L kind code prio key (L payload-tag bytes bytes) body) *)
+(** edit: (L kind code prio key (L payload-tag bytes bytes [pref]) body [pref]) *)
 Definition d_payload (x : xval) : option payload :=
   match x with
   | XL [XN 0; XB f; XB t] => Some (PPrime f t)
-  | XL [XN 1; XB p; XB b] => Some (PPrepareFn p b)
+  | XL [XN 1; XB p; XB b] => Some (PPrepareFn p b 0)
+  | XL [XN 1; XB p; XB b; XN pref] => if pref <? 4 then Some (PPrepareFn p b pref) else None
   | XL [XN 2; XB p] => Some (PPresentFn p)
   | XL [XN 3] => Some PMark
   | _ => None
   end.
+Definition mk_pedit (k c : N) (p : xval) (key : bytes) (pl : xval) (body : bytes) (pref : N) : option pedit :=
+  match d_Z p, d_payload pl with
+  | Some p, Some pl =>
+      if (k <? 8) && (c <? 3) && (pref <? 4) then
+        Some {| pe_kind := N.to_nat k; pe_code := c; pe_prio := p; pe_key := key; pe_payload := pl; pe_body := body; pe_pref := pref |}
+      else None
+  | _, _ => None
+  end.
 Definition d_pedit (x : xval) : option pedit :=
   match x with
-  | XL [XN k; XN c; p; XB key; pl; XB body] =>
-      match d_Z p, d_payload pl with
-      | Some p, Some pl =>
-          if (k <? 8) && (c <? 3) then
-            Some {| pe_kind := N.to_nat k; pe_code := c; pe_prio := p; pe_key := key; pe_payload := pl; pe_body := body |}
-          else None
+  | XL [XN k; XN c; p; XB key; pl; XB body] => mk_pedit k c p key pl body 0
+  | XL [XN k; XN c; p; XB key; pl; XB body; XN pref] => mk_pedit k c p key pl body pref
+  | _ => None
+  end.
+(** request: (B path) = GET path, or (L method (B target) (L) | (L s e)) *)
+Definition d_creq (x : xval) : option creq :=
+  match x with
+  | XB p => Some {| q_method := 0; q_uri := p; q_range := None |}
+  | XL [XN m; XB u; XL []] => Some {| q_method := m; q_uri := u; q_range := None |}
+  | XL [XN m; XB u; XL [XN s; XN e]] => Some {| q_method := m; q_uri := u; q_range := Some (s, e) |}
+  | _ => None
+  end.
+Definition d_file (x : xval) : option (bytes * bytes) :=
+  match x with XL [XB p; XB c] => Some (p, c) | _ => None end.
+(** options: (L cache (L) | (L (L (L path content)...))) *)
+Definition d_opts (x : xval) : option hostopts :=
+  match x with
+  | XL [c; XL []] => match d_bool c with Some c => Some {| o_cache := c; o_files := None |} | None => None end
+  | XL [c; XL [fs]] =>
+      match d_bool c, d_list d_file fs with
+      | Some c, Some fs => Some {| o_cache := c; o_files := Some fs |}
       | _, _ => None
       end
   | _ => None
   end.
-Definition run_pipe_with (f : list pedit -> list bytes -> list (outcome (N * bytes) * list event)) (x : xval) : xval :=
+Definition run_pipe_with (f : list pedit -> hostopts -> list creq -> pconfig * list (outcome (N * bytes) * list event)) (x : xval) : xval :=
+  let go es o rs :=
+    match d_list d_pedit es, o, d_list d_creq rs with
+    | Some es, Some o, Some rs => let '(c, replies) := f es o rs in x_list (x_reply c) replies
+    | _, _, _ => bad_input
+    end in
   match x with
-  | XL [es; ps] =>
-      match d_list d_pedit es, d_list d_B ps with
-      | Some es, Some ps => x_list x_reply (f es ps)
-      | _, _ => bad_input
-      end
+  | XL [es; rs] => go es (Some {| o_cache := false; o_files := None |}) rs
+  | XL [es; rs; o] => go es (d_opts o) rs
   | _ => bad_input
   end.
 Definition run_pipe := run_pipe_with scenario_model.
